@@ -28,12 +28,20 @@ def make_scn(rng, real):
     names = list(scn['spec']['tasks'])
     if rng.random() < 0.8:
         scn['pre'] = [n for n in names if rng.random() < 0.5]
+    if rng.random() < 0.3:
+        # the same Lab then executes the same task objects again (bust_cache): afterwards every instance must carry
+        # the outcome of THAT execution
+        scn['second_run'] = {'failing': {}}
     return scn
 
 
 def judge(rep, scn, out):
     from vlab import oracles
     from vlab.props.dagprop import report_bad
+    sec = getattr(out, 'second', None)
+    if sec:
+        out.trace.calls = out.trace.calls[:len(out.trace.calls) - len(sec['calls'])]
+        rep.count('second_calls_on_the_same_task_objects')
     bad, ninst, nloads = oracles.c03(scn, out)
     E, L = oracles.planned(scn, out)
     rep.count('instances_checked', ninst)
@@ -105,6 +113,7 @@ def run_shard(rep):
     rep.require('loads_observed', 100)
     rep.require('instances_checked', 500)
     rep.require('mainscript_histories', 10)
+    rep.require('second_calls_on_the_same_task_objects', 50)
     for r in range(1 if rep.tier == 'quick' else 3):
         mainscript_case(rep, ['spawn', 'fork', 'spawn', 'serial'][(rep.shard + r) % 4], rep.seed * 1000 + 500 + rep.shard * 10 + r)
     exhaustive_subsets(rep, cfg.get('n_exhaustive_specs', 16))
